@@ -7,15 +7,19 @@ from checklib import (WORK, BUILD, log, build_all, scan_forbidden, proof_obligat
 STRUCT = {"model:top", "model:mid", "model:base", "model:clean", "model:ll", "model:store",
           "model:cached", "model:not-enabled", "harness-error", "driver-error", "model:dirtysegs",
           "model:dirtyops"}
-READS = {"model:gets", "model:iter"}
+READS = {"model:gets", "model:iter", "tmodel:reads"}
+STRUCT |= {"tmodel:coll", "tmodel:top", "tmodel:mid", "tmodel:base", "tmodel:clean", "tmodel:ll",
+           "tmodel:store", "tmodel:cached", "tmodel:not-enabled", "tmodel:dirtysegs", "tmodel:dirtyops",
+           "tspec:unexpected-error"}
+TREE = ("coll", "tree", "treerun")
 HELD = "held"
 
 # runs: (family, mode, runner, n_quick, n_thorough, labels)
 PROPS = {
     "C01": dict(
-        runs=[("coll", "flat-nomerge", "flatrun", 320, 6000, 22)],
+        runs=[("coll", "flat-nomerge", "flatrun", 320, 6000, 22), TREE + (160, 3000, 24)],
         corr=STRUCT | READS, corr_held=True,
-        spec={"spec:gets", "spec:iter"}, spec_held=True,
+        spec={"spec:gets", "spec:iter", "tspec:reads"}, spec_held=True,
         rule="generated label sequences (batches of Set/Del with unique keys woven with merger ingest/swap/hand-over, "
              "persister begin/publish/fail, snapshots, close/reopen) over memory-only, map-backed and store-backed "
              "collections with sampled options; a case is non-trivial when at some observed step a key has operations "
@@ -23,7 +27,7 @@ PROPS = {
         technique="Coq proof (invariant by induction over labels) + lock-step correspondence against the extracted model",
     ),
     "C02": dict(
-        runs=[("coll", "flat", "flatrun", 320, 6000, 26)],
+        runs=[("coll", "flat", "flatrun", 320, 6000, 26), TREE + (160, 3000, 26)],
         corr=STRUCT | READS, corr_held=True,
         spec=set(), spec_held=True,
         rule="as C01 with Merge operations; up to three snapshots are held open across the rest of each case and "
@@ -33,17 +37,17 @@ PROPS = {
         technique="Coq proof (snapshots are values; cache-soundness invariant) + re-read of open handles after every label",
     ),
     "C08": dict(
-        runs=[("coll", "flat", "flatrun", 320, 6000, 24)],
-        corr=STRUCT | READS | {"model:cget"}, corr_held=True,
-        spec={"spec:gets", "spec:iter", "spec:cget"}, spec_held=True,
+        runs=[("coll", "flat", "flatrun", 320, 6000, 24), TREE + (160, 3000, 24)],
+        corr=STRUCT | READS | {"model:cget", "tmodel:cget"}, corr_held=True,
+        spec={"spec:gets", "spec:iter", "spec:cget", "tspec:reads", "tspec:cget"}, spec_held=True,
         rule="as C01 with an order-sensitive operator (existing ++ ':' ++ operand) and Merge-heavy batches; "
              "non-trivial = a key has operations in >= 2 sections at an observed step",
         technique="Coq proof (merge_range satisfies merged_ok for an arbitrary operator) + lock-step correspondence",
     ),
     "C10": dict(
-        runs=[("coll", "flat", "flatrun", 320, 6000, 24)],
-        corr=STRUCT | READS | {"model:cget"}, corr_held=False,
-        spec={"spec:cget", "spec:gets", "spec:iter"}, spec_held=False,
+        runs=[("coll", "flat", "flatrun", 320, 6000, 24), TREE + (160, 3000, 24)],
+        corr=STRUCT | READS | {"model:cget", "tmodel:cget"}, corr_held=False,
+        spec={"spec:cget", "spec:gets", "spec:iter", "tspec:reads", "tspec:cget"}, spec_held=False,
         rule="at every label Collection.Get, Snapshot.Get and iteration are read for every universe key and compared "
              "with each other through the reference; non-trivial = a key has operations in >= 2 sections",
         technique="Coq proof (Collection.Get = Snapshot.Get on every reachable state) + three read paths at every label",
@@ -58,13 +62,46 @@ PROPS = {
         technique="Coq proof (protocol result is a legal update; prefix invariant) + lock-step correspondence",
     ),
     "C20": dict(
-        runs=[("coll", "flat", "flatrun", 320, 6000, 24)],
+        runs=[("coll", "store", "flatrun", 320, 6000, 24), TREE + (200, 3000, 24)],
         corr=STRUCT | READS, corr_held=False,
-        spec={"spec:gets"}, spec_held=False,
+        spec={"spec:zero-gauges-unpersisted", "tspec:zero-gauges-unpersisted", "tspec:zero-gauges-child-existence"},
+        spec_held=False,
         rule="Stats() gauges sampled at every label and compared with the model's; whenever they are zero the store's "
              "own snapshot must equal the reference (checked through the model's store footer); non-trivial = a key "
              "has operations in >= 2 sections",
         technique="Coq proof (zero dirty segments => lower level = reference) + gauges vs store content at every label",
+    ),
+    "C04": dict(
+        runs=[("coll", "store", "flatrun", 320, 6000, 26), TREE + (200, 3000, 26)],
+        corr=STRUCT | READS, corr_held=False,
+        spec={"spec:reopen-prefix", "tspec:reopen-prefix", "spec:gets", "spec:iter", "tspec:reads"}, spec_held=False,
+        rule="store-backed collections closed at random points relative to merger/persister progress (a persistence "
+             "round parked at its start completes during Close) and reopened, several cycles per case, all store "
+             "options sampled; after every reopen the served content must equal the reference after some prefix of "
+             "the executed batches (searched by the model), and later batches build on it; non-trivial = a key has "
+             "operations in >= 2 sections at an observed step",
+        technique="Coq proof (prefix invariant a<=b<=d; close leaves a prefix; cycles) + lock-step correspondence with reopen labels",
+    ),
+    "C07": dict(
+        runs=[("coll", "store", "flatrun", 320, 6000, 30), TREE + (200, 3000, 30)],
+        corr=STRUCT | READS, corr_held=False,
+        spec={"spec:gets", "spec:iter", "tspec:reads"}, spec_held=False,
+        rule="store-backed collections with CompactionConcern disable/allow/force, level parameters 1-4 / 2-9, "
+             "fragmentation thresholds 0.1/0.65/0.99, buffer pages 1/512, sync options; the footer's segment list "
+             "after every persistence round (append, partial compaction at the observed splice point, full "
+             "compaction) is compared segment by segment with the model's; non-trivial = >= 2 sections share a key",
+        technique="Coq proof (compaction at every splice point preserves reads; full-compaction shape) + lock-step on the store footer",
+    ),
+    "C11": dict(
+        runs=[TREE + (360, 6000, 28)],
+        corr=STRUCT | READS | {"tmodel:cget"}, corr_held=True,
+        spec={"tspec:reads", "tspec:cget", "tspec:reopen-prefix"}, spec_held=True,
+        rule="histories over child names c1, c2 and nested c1/d1, c2/d1: create, write, delete, recreate, child-only "
+             "and delete-only batches, woven with all merger/persister/compaction/reopen labels; every section's tree "
+             "of stacks (with incarnation numbers canonicalised per path), the footer tree and the collection's child "
+             "bookkeeping are compared with the model after every label, and every path's reads with the reference "
+             "tree; non-trivial = a (path,key) has operations in >= 2 sections",
+        technique="Coq proof (per-node view preservation under merge/persist/compaction/reopen; parent isolation) + lock-step over child trees",
     ),
 }
 
